@@ -256,6 +256,9 @@ def inv_links(V):
                                                           sel(livearr, ix, z3.BoolVal(False)),
                                                           ls == sel(V.stamp, ix, BV16(0))))))
             out.append(('C12.removed_nolinks[%d.%s]' % (me, L), z3.Implies(z3.Not(li), z3.Not(sm))))
+            # C12's own statement: no link of a live node leads to a removed node
+            out.append(('C12.no_live_link_to_removed[%d.%s]' % (me, L),
+                        z3.Implies(z3.And(li, sm), z3.And(z3.UGE(ix, 1), z3.ULE(ix, N), sel(livearr, ix, z3.BoolVal(False))))))
         out.append(('C01.data_tag[%d]' % me, V.is_data[i] == li))
         nx = V.idx['next'][i]; pv = V.idx['prev'][i]; pa = V.idx['parent'][i]
         out.append(('C01.next_prev[%d]' % me,
